@@ -227,6 +227,9 @@ def native_timer(run, P, Q, rounds=1):
     finally:
         srv.stop()
 
+def native_replay(run, rp):
+    return native_timer(run, rp['P'], rp['Q'])
+
 def confirm(run, cands):
     for f in cands:
         fi = Finding(PROP, f['kind'], f['site'], f['what'], f['witness'], role=dict(predicate=f.get('predicate', '')))
@@ -240,6 +243,7 @@ def confirm(run, cands):
             except Exception as e:
                 okk, text = None, 'native timer run failed: ' + repr(e)[:300]
             fi.confirmed = True if okk else None; fi.native = text
+            fi.replay = dict(kind='timer', P=P, Q=Q)
             if okk: run.native_replays += 1
         elif 'world' in w:
             from mirsym import ircreplay
